@@ -142,6 +142,10 @@ class AabbTree:
         overlap_pairs : array, shape (n, 2)
             An array of all overlapping pairs.
         """
+        if self.root == INDEX_NONE or other.root == INDEX_NONE:
+            empty = np.array([], dtype=int)
+            return False, empty, empty, []
+
         (
             overlap_tetrahedron1,
             overlap_tetrahedron2,
@@ -176,6 +180,9 @@ class AabbTree:
             IMPORTANT: These indices may differ from order the aabbs where added to the tree.
             Use these indices to index the external data and insert index lists.
         """
+        if self.root == INDEX_NONE:
+            return False, np.array([], dtype=int)
+
         overlaps = query_overlap(aabb, self.root, self.nodes, self.aabbs)
 
         return len(overlaps) > 0, overlaps
